@@ -661,10 +661,25 @@ def check_case(rn, case, nkill, nint, rng, replay_only=None):
             concrete.append("non-zero exit status but an output file %s from this run is left behind" % d)
     for w_ in concrete:
         report("oracle-final", w_, dict(real_events=real_ev, status=status))
-    if mismatch and not concrete:
-        report("tie-trace", "; ".join(mismatch)[:1500], dict(real_events=real_ev, status=status), no_input=True)
     rn.cleanup(r)
-    if mismatch or concrete:
+    if concrete:
+        return nviol
+    if mismatch:
+        # SEARCH: the tie broke; look for a concrete failing kill point with the direct oracles (every k)
+        first, last = fs_idx(r["entries"], relevant)
+        found = False
+        for k in (range(first, last + 2) if first is not None else []):
+            kr = rn.execute(case, k=k, action="kill")
+            kreal = read_dir(kr["w"])
+            bad = (oracle_safe(rn, pr, kreal, zcache) if pr.wf else []) + oracle_noclobber(pr, kreal)
+            rn.cleanup(kr)
+            if bad:
+                report("kill", "killed at system call #%d: %s (the run's file-operation sequence also differs from fio_ops: real=%s model=%s)" %
+                       (k, bad[0], real_ev, pr.events), dict(k=k, dir={n: (DIR if v == DIR else len(v)) for n, v in kreal.items()}))
+                found = True
+                break
+        if not found:
+            report("tie-trace", "; ".join(mismatch)[:1500], dict(real_events=real_ev, status=status), no_input=True)
         return nviol
 
     # ---- kill points
@@ -952,6 +967,8 @@ def check_sparse(ctx, t, m, rng):
                     f.seek(int(sk0))
                     if f.read() != want:
                         concrete = "sparse writer tail bytes differ after a >1GB skip"
+        if nviol >= 3:
+            break
         if concrete:
             ctx.violation(dict(kind="sparse", spec=spec, skips0=sk0, real_ops=rops, model_ops=mops), what=concrete + " [spec %s]" % spec[:200])
             nviol += 1
@@ -992,6 +1009,8 @@ def check_cli_sparse(rn, g, thorough):
                 rn.cleanup(r)
             ctx.count(("cli-sparse", len(content), len(zs), outs["--sparse"][2] < outs["--no-sparse"][2]), nontrivial=True)
             for flag in outs:
+                if nviol >= 2:
+                    return nviol
                 if outs[flag][0] != content or outs[flag][1] != ("EXIT", 0):
                     got = outs[flag][0]
                     ctx.violation(dict(kind="cli-sparse", flag=flag, zst=z.hex() if len(z) < 4096 else None, content_len=len(content),
@@ -1016,8 +1035,12 @@ def run(ctx):
         "boundaries, >1 GiB stored skips) driven through AIO_fwriteSparse/End vs the model call by call. distinct_nontrivial counts distinct signatures "
         "(kind, invocation shape, model operation-kind sequence | matched model prefix state index | sparse op-kind sequence); a trace is trivial if the model "
         "predicts no file operation besides exit.")
+    import time
+    t0 = time.time()
     tools = build_tools()
+    core.log("C19 tools built %.1fs" % (time.time() - t0))
     r = ctx.prove()
+    core.log("C19 proofs checked %.1fs" % (time.time() - t0))
     ctx.proof_verdict(lambda broken: [])
     ctx.assumptions += [
         "the theorems are about the Gallina model (coq/Cli); the model is tied to programs/*.c by differential testing of the rebuilt binary (trace, kill points, SIGINT points, sparse calls)",
@@ -1034,7 +1057,9 @@ def run(ctx):
         quick = ctx.quick
         nviol = 0
         nviol += check_sparse(ctx, tools, m, rng)
+        core.log("C19 sparse writer tie done %.1fs" % (time.time() - t0))
         nviol += check_cli_sparse(rn, g, not quick)
+        core.log("C19 CLI sparse/no-sparse done %.1fs" % (time.time() - t0))
         cases = corpus(g)
         nrand = 10 if quick else 120
         for i in range(nrand):
@@ -1063,6 +1088,8 @@ def run(ctx):
                 nviol += 1
             if nviol >= 6:
                 break
+        core.log("C19 invocations done %.1fs (%d supervised runs)" % (time.time() - t0, rn.n_dirs))
+        ctx.notes["supervised_runs"] = rn.n_dirs
         ctx.notes["invocations_by_mode_output"] = hist
         ctx.notes["invocations"] = len(cases)
     finally:
